@@ -30,6 +30,8 @@ BOUND = {
     "quick": "catalogue x 2 decorations + L(4,3) x 6 container writers x applicable channels x implicit/explicit file_type; 7 typed cells x 3 typings one-at-a-time and all-at-once x {xls,xlsx}; 4 text-noise kinds x 3 cells x 4 containers; empty-row runs {1,59,60} and empty-column runs {1,19,20} at 3 positions x 2 sheets, trailing {1,3} x {xls,xlsx}; boundary runs {61 rows, 21 columns} as negative control",
     "thorough": "catalogue x 2 decorations + L(5,3); same other dimensions",
 }
+# as-built additions to the bound (kept next to BOUND so that the evidence reports them)
+BOUND = {k: v + "; plus: " + 'paths with upper-case / unknown / missing suffix; workbooks with extra sheets (misspelled, underscore-prefixed, unrelated, two at once) in every container' for k, v in BOUND.items()}
 
 _TMP = None
 
